@@ -22,7 +22,12 @@ import warnings
 if typing.TYPE_CHECKING:
     import ufl.core.terminal
 
-from ufl.core.ufl_type import UFLObject, UFLType, update_ufl_type_attributes
+from ufl.core.ufl_type import (
+    UFLObject,
+    UFLType,
+    setstate_without_cached_hash,
+    update_ufl_type_attributes,
+)
 
 
 class Expr(metaclass=UFLType):
@@ -106,6 +111,8 @@ class Expr(metaclass=UFLType):
     def __init__(self):
         """Initialise."""
         self._hash = None
+
+    __setstate__ = setstate_without_cached_hash
 
     # This shows the principal behaviour of the hash function attached
     # in ufl_type:
